@@ -36,7 +36,7 @@ CLAIMS = {
          "Trusts go/ssa; path feasibility is decided only for contradictions among the recognised atoms (over-approximation of feasible paths otherwise).",
          "DESIGN.md §3 C05, §4 F-1"),
  "C12": ("constant evaluation of the literal attack tables with exhaustive enumeration of every mask subset against the checker's reference geometry; SSA shape recognition of lookup and fill; effect analysis for immutability; def-use check of the InBetween consumer",
-         "Data clauses decided exhaustively from the source literals: magics are collision-free (up to equal attack sets) for every subset of every mask and indices stay in range; leaper tables equal geometry on all 64 squares; fill and lookup index agree (replayed on the literals); tables are immutable after initialisation; the InBetween consumer masks both ends. The ray walkers, pawn shift expressions and initInBetween are code and are not decided.",
+         "Data clauses decided exhaustively from the source literals: magics are collision-free (up to equal attack sets) for every subset of every mask and indices stay in range; leaper tables equal geometry on all 64 squares; fill and lookup index agree (replayed on the literals); tables are immutable after initialisation; the InBetween consumer masks both ends. the between-squares table is filled by the recognised coordinate walk over all aligned pairs (R7: decided for that form, undecided for any other); one-file shifts in the pawn patterns mask the edge file. The ray walkers themselves are code and are not decided.",
          "Trusts go/ssa and go/constant; the checker's own 40-line reference ray walker and leaper offsets; R4 assumes calc*Attacks compute the ray walk.",
          "DESIGN.md §3 C12"),
  "C14": ("rule-based inequality prover over all symbolic paths of the loop-free limit functions (callees and min/max inlined from SSA), dependence analysis (own clock only), dominance/wiring checks of timer and soft-limit consumers, token-field-colour sibling agreement",
@@ -60,11 +60,11 @@ CLAIMS = {
          "Trusts go/ssa.",
          "DESIGN.md §3 C09, §3.0"),
  "C07": ("dominance and reachability over SSA (entry clear, splice after undo inside the window), path enumeration from the root search call with phis and branch conditions resolved per path (what move/ponder hold, known line length and window relation at adoption and report), shape check of pv.insert, loop-structure check of the report",
-         "Structural necessary conditions: each node clears its PV slot first; a child's line is spliced only behind the move that was just searched and undone, only when its value is strictly inside the window; insert copies the child's line with its length; the adopted move, the ponder move and the printed variation come from the same buffer with no search in between, only after the aspiration loop succeeded; ponder is cleared for lines shorter than two; one report per depth, depths increasing. Legality of the PV moves themselves (run-time table contents) is not decided.",
+         "Structural necessary conditions: each node clears its PV slot first; a child's line is spliced only behind the move that was just searched and undone, only when its value is strictly inside the window; insert copies the child's line with its length; the triangular rows of the buffer do not overlap (row index tabulated); the adopted move, the ponder move and the printed variation come from the same buffer with no search in between, only after the aspiration loop succeeded; ponder is cleared for lines shorter than two; one report per depth, depths increasing. Legality of the PV moves themselves (run-time table contents) is not decided.",
          "Trusts go/ssa; bufIx arithmetic is not decided.",
          "DESIGN.md §3 C07"),
  "C08": ("transitive nondeterminism/effect audit over the VTA closure of Search.Go with forward taint of wall-clock values (data and control dependence), guard analysis of the node counter, reader census of the soft limits",
-         "Structural necessary conditions: the only nondeterminism sources reachable from Search.Go are the wall clock (whose values reach only the info line, Counters.Time and the soft-limit test), the two channel polls and the output hand-off; no package-level state is written; the node counter is only incremented, under Nodes == -1 or Counters.Nodes < Nodes; soft limits are consulted only between iterations and a limit that is not set (<= 0) can never end the search. Equality of two runs is not decided.",
+         "Structural necessary conditions: the only nondeterminism sources reachable from Search.Go are the wall clock (whose values reach only the info line, Counters.Time and the soft-limit test), the two channel polls and the output hand-off; no package-level state is written; the node counter is only incremented, under Nodes == -1 or Counters.Nodes < Nodes; soft limits are consulted only between iterations and a limit that is not set (<= 0) can never end the search. what Go returns is decided by completed iterations only (a kept move keeps its ponder move). Equality of two runs is not decided.",
          "VTA over-approximates dynamic calls; std callees outside time/rand/runtime/os are taken to be deterministic.",
          "DESIGN.md §3 C08"),
  "C18": ("SSA loop model of the swap algorithm (tests, back edges, phis), piece-attack pairing, must-dataflow for least-valuable-attacker order with fixpoint meaning of the start markers, parity/balance evaluators for the early exits, occupancy dataflow for x-ray refreshes and entry bookkeeping",
